@@ -127,6 +127,10 @@ class ThreadsPart(object):
     if self.hot_lines and W.chance("hot", 1, 3):
       k["hot_line"] = W.pick("hotline", self.hot_lines)
       k["hot_budget"] = W.pick("hotbudget", [1, 3, 8])
+    if k["gap_max"] and k["line_budget"] and W.chance("opcodes", 1, 3):
+      # instruction granularity: a switch may land inside a source line
+      k["opcodes"] = 1
+      k["gap_max"] *= W.pick("opgap", [1, 3, 8])
     return k
 
   def gen_workload(self, W, part):
